@@ -9,6 +9,7 @@ import (
 	"strconv"
 	"strings"
 	"time"
+	"unicode"
 
 	"github.com/FollowTheProcess/spok/ast"
 	"github.com/FollowTheProcess/spok/lexer"
@@ -249,9 +250,9 @@ func (g *layoutGen) nl() string {
 	return "\n"
 }
 
-// ws: any mix of blank, tab, newline (slots of the first row of the admissible-layout table)
+// ws: any whitespace (Doc's class `Ws`): blanks, tabs, LF, CRLF, lone CR, Unicode spaces
 func (g *layoutGen) ws() string {
-	switch g.rng.Intn(7) {
+	switch g.rng.Intn(10) {
 	case 0:
 		return g.nl()
 	case 1:
@@ -262,22 +263,31 @@ func (g *layoutGen) ws() string {
 		return "  " + g.nl() + "\t"
 	case 4:
 		return g.nl() + g.nl() + " "
+	case 5:
+		return g.pick("\u00a0", "\u2003", "\r", " \r ", "\v", "\f", "\u0085")
 	}
 	return ""
 }
 
-// hws: blanks and tabs only
-func (g *layoutGen) hws() string {
+// afterStr: whitespace admissible directly after a string argument: any whitespace that does not
+// begin with a line end
+func (g *layoutGen) afterStr() string {
 	if g.wild && g.rng.Intn(6) == 0 {
 		return g.ws()
 	}
+	w := g.pick("", "", " ", "\t", "  ", " \t", " "+g.nl(), "\t"+g.nl()+" ", "\r", "\r \n", "\u00a0"+g.nl())
+	return w
+}
+
+// hws: blanks and tabs only
+func (g *layoutGen) hws() string {
 	return g.pick("", "", " ", "\t", "  ", " \t")
 }
 
 var identPool = []string{"a", "B", "x_y", "täsk", "_x", "default", "Ünï", "test", "atask", "tas", "ask", "clean", "世界", "a_task_b", "tasky"}
 var strPool = []string{"", "x", "a b", "**/*.go", "ü/é.txt", "f.txt", " ", "./bin/main", "{{x}}", "a,b", "(x)", "#no", "->", "task", ":=", "}", "{", "a\tb", "*.x", " ", "é"}
-var cmdPool = []string{"echo a", "go test ./...", "echo {{.X}}", "a", "echo \"hi\"", "x -> y", "echo a:=b", "ls (a)", "echo {", "mkdir -p {{.BIN}}/x", "echo $HOME", "echo 'q' | wc -l", "task x", "echo a,b", "echo {{.A}}{{.B}}", "b  c", "echo a\tb", "x \t", "echo {{", "e }} f", "echo é{{.X}}"}
-var commentPool = []string{" hello", "x", " two words", "", " # inner", " task", "\ttabbed", " trailing  ", "  ", " ü", "task x() {}", " a := \"b\""}
+var cmdPool = []string{"echo a", "go test ./...", "echo {{.X}}", "a", "echo \"hi\"", "x -> y", "echo a:=b", "ls (a)", "echo {", "mkdir -p {{.BIN}}/x", "echo $HOME", "echo 'q' | wc -l", "task x", "echo a,b", "echo {{.A}}{{.B}}", "b  c", "echo a\tb", "x \t", "echo {{", "e }} f", "echo é{{.X}}", "echo a ", "b \r c", "c  ", "x}}", "#{{y", "écho x", "xy}}", "}}}", "-v"}
+var commentPool = []string{" hello", "x", " two words", "", " # inner", " task", "\ttabbed", " trailing  ", "  ", " ü", "task x() {}", " a := \"b\"", " cr\r", "\r"}
 
 func (g *layoutGen) name() string { return identPool[g.rng.Intn(len(identPool))] }
 
@@ -315,7 +325,7 @@ func (g *layoutGen) renderArgs(as []sArg) string {
 	s := "(" + g.ws()
 	for i, a := range as {
 		if a.isStr {
-			s += a.src() + g.hws()
+			s += a.src() + g.afterStr()
 		} else {
 			s += a.src() + g.ws()
 		}
@@ -349,7 +359,7 @@ func (g *layoutGen) genSpec(maxStmts int) []sNode {
 		default:
 			doc := ""
 			if g.rng.Intn(2) == 0 {
-				doc = g.pick(" Run the tests", "doc", " ü", "  spaced  ", " ")
+				doc = g.pick(" Run the tests", "doc", " ü", "  spaced  ", " ", " d\r")
 			} else if prevComment {
 				// a doc-less task cannot directly follow a (non-empty) comment: separate with a variable
 				spec = append(spec, sNode{kind: "AS", name: "sep", sval: "s"})
@@ -366,34 +376,31 @@ func (g *layoutGen) genSpec(maxStmts int) []sNode {
 	return spec
 }
 
-// commandOK: the lexer's first-command rule (starts with a letter) and the command alphabet
-func firstCmdOK(c string) bool {
-	if c == "" {
-		return false
-	}
-	r := []rune(c)[0]
-	return (r >= 'a' && r <= 'z') || (r >= 'A' && r <= 'Z')
-}
-
 func (g *layoutGen) render(spec []sNode) string {
 	src := ""
 	for _, n := range spec {
-		src += g.pick("", "", g.nl(), "  ", "\t") // leading indentation / blank lines
+		src += g.ws() // leading indentation / blank lines
+		eol := func(text string) string {
+			if strings.HasSuffix(text, "\r") {
+				return "\r\n"
+			}
+			return g.pick(g.nl(), g.nl(), "\n", "\r\n")
+		}
 		switch n.kind {
 		case "C":
-			src += "#" + n.text + g.nl()
+			src += "#" + n.text + eol(n.text)
 		case "AS":
-			src += n.name + g.hws() + ":=" + g.hws() + `"` + n.sval + `"` + g.pick("", "", " ", "\t ") + g.nl()
+			src += n.name + g.ws() + ":=" + g.ws() + `"` + n.sval + `"` + g.hws() + g.nl()
 		case "AF":
-			src += n.name + g.hws() + ":=" + g.hws() + n.fn + g.hws() + g.renderArgs(n.args) + g.hws() + g.nl()
+			src += n.name + g.ws() + ":=" + g.ws() + n.fn + g.ws() + g.renderArgs(n.args) + g.ws() + g.nl()
 		case "T":
 			if n.text != "" {
-				src += "#" + n.text + g.nl()
+				src += "#" + n.text + eol(n.text) + g.ws()
 			}
-			src += "task" + g.pick(" ", "  ", "\t") + n.name + g.hws() + g.renderArgs(n.deps) + g.ws()
+			src += "task" + g.pick(" ", "  ", "\t", g.nl()+" ", "\u00a0") + n.name + g.ws() + g.renderArgs(n.deps) + g.ws()
 			if len(n.outs) == 1 && g.rng.Intn(2) == 0 {
 				if n.outs[0].isStr {
-					src += "->" + g.ws() + n.outs[0].src() + g.hws()
+					src += "->" + g.ws() + n.outs[0].src() + g.afterStr()
 				} else {
 					src += "->" + g.ws() + n.outs[0].src() + g.ws()
 				}
@@ -401,18 +408,21 @@ func (g *layoutGen) render(spec []sNode) string {
 				src += "->" + g.ws() + g.renderArgs(n.outs) + g.ws()
 			}
 			src += "{"
-			if len(n.cmds) <= 1 && g.rng.Intn(2) == 0 {
-				// one-line body
-				src += g.pick("", " ", "\t", "  ")
-				if len(n.cmds) == 1 {
-					src += n.cmds[0] + g.pick("", " ")
+			crs := func() string { return g.pick("", "", "", "\r", "\r\r") }
+			src += g.ws()
+			for i, c := range n.cmds {
+				src += c
+				if i < len(n.cmds)-1 || g.rng.Intn(2) == 0 {
+					// separator: CR* LF whitespace
+					src += crs() + "\n" + g.ws()
+				} else {
+					// one-line style end: CR* and at most one blank
+					e := crs() + g.pick("", " ")
+					if e == "" && strings.HasSuffix(c, " ") {
+						e = " "
+					}
+					src += e
 				}
-			} else {
-				src += g.hws()
-				for _, c := range n.cmds {
-					src += g.nl() + g.pick("", "    ", "\t", g.nl()+"  ") + c
-				}
-				src += g.nl() + g.hws()
 			}
 			src += "}" + g.pick(g.nl(), g.nl()+g.nl(), "")
 			if !strings.HasSuffix(src, "\n") {
@@ -461,16 +471,9 @@ func specWords(spec []sNode) string {
 	return strings.Join(w, " ")
 }
 
-// cmdScanOK: would the lexer's command loop keep all of c as one command (no newline, no body-ending
-// brace, no '#', only ASCII unless the look-ahead for '{{' / '}}' absorbs the rune)?
-func cmdScanOK(c string) bool {
-	if c == "" || strings.HasSuffix(c, " ") || strings.HasSuffix(c, "\r") {
-		return false
-	}
-	rs := []rune(c)
-	if rs[0] == '}' || rs[0] == ' ' || rs[0] == '\t' || rs[0] == '\r' {
-		return false
-	}
+// scanOK mirrors the Lean `cmdScanOK`: the command loop, started with rs[0] as its loop variable and a
+// newline after the text, takes every rune as command text
+func scanOK(rs []rune) bool {
 	for i := 0; i < len(rs); i++ {
 		rest := string(rs[i+1:])
 		switch {
@@ -485,15 +488,24 @@ func cmdScanOK(c string) bool {
 	return true
 }
 
-// specOK filters specs to those the syntax can express at all (WFspec of DESIGN §7.5)
+// cmdOK: FirstCmdOK / NextCmdOK of lean/Spok/Syntax/Render.lean
+func cmdOK(c string, first bool) bool {
+	if c == "" || strings.HasSuffix(c, "\r") {
+		return false
+	}
+	rs := []rune(c)
+	if first {
+		return unicode.IsLetter(rs[0]) && scanOK(rs[1:])
+	}
+	return !unicode.IsSpace(rs[0]) && scanOK(rs)
+}
+
+// specOK filters specs to those the syntax can express at all
 func specOK(spec []sNode) bool {
 	for _, n := range spec {
 		if n.kind == "T" {
 			for i, c := range n.cmds {
-				if i == 0 && !firstCmdOK(c) {
-					return false
-				}
-				if !cmdScanOK(c) {
+				if !cmdOK(c, i == 0) {
 					return false
 				}
 			}
